@@ -170,6 +170,8 @@ Plan gen_plan(const Profile &pf, uint64_t seed) {
         SigPlan s; memset(s.p, 0, sizeof s.p);
         do { s.sig = pf.wide_ids ? (int) r.range(1, 255) : (int) r.range(1, 12); } while (std::any_of(sigs.begin(), sigs.end(), [&](const SigPlan &o) { return o.sig == s.sig; }));
         s.src = srcs[r.below(srcs.size())];
+        // the built-in source 0 is a legal parent too (own PRNG stream: the other draws of existing seeds stay as they were)
+        { Rng r0 = rng_derive(seed ^ (uint64_t) (i + 1) * 0x9e3779b97f4a7c15ULL, "src0"); if (r0.chance(0.12)) s.src = 0; }
         s.dtype = types[r.below(types.size())];
         s.sigtype = (pf.vsr_sigs && r.chance(0.2)) ? 1 : 0;
         s.prod = (P.producers > 1) ? (int) r.below(P.producers) : 0;
